@@ -234,7 +234,7 @@ def st_moved(files):
     })
 
 
-def plan(tier, seed):
+def base_plan(tier, seed):
     specs = []
     if tier == "quick":
         files = corpus.SMALL[:8] + ["1ehz-assembly-1.cif"]
@@ -250,6 +250,13 @@ def plan(tier, seed):
         specs += [{"kind": "mini", "files": corpus.SMALL + corpus.MEDIUM, "examples": 6000, "seed": seed * 1000 + 50 + k} for k in range(16)]
         specs += [{"kind": "steered-hbond", "files": corpus.SMALL + corpus.MEDIUM, "examples": 4000, "seed": seed * 1000 + 300 + k} for k in range(16)]
     return specs
+
+
+def plan(tier, seed):
+    # crowded placements (superimposed, slightly perturbed copies of a run of residues as chains of one model): an atom
+    # then has far more donors / acceptors within 4 A than any spaced structure offers
+    n, ex = (4, 30) if tier == "quick" else (8, 800)
+    return base_plan(tier, seed) + [{"kind": "crowd", "files": corpus.SMALL[:6], "examples": ex, "seed": seed * 1000 + 500 + k} for k in range(n)]
 
 
 def run_shard(spec) -> ShardResult:
@@ -272,6 +279,9 @@ def run_shard(spec) -> ShardResult:
     elif spec["kind"] == "steered-hbond":
         run_hypothesis(PROP_ID, gen3d.st_steered_hbond(files), oracle, seed=spec["seed"], max_examples=spec["examples"],
                        result=res, to_json=to_json, classify=classify_steered)
+    elif spec["kind"] == "crowd":
+        run_hypothesis(PROP_ID, gen3d.st_crowd(files), oracle, seed=spec["seed"], max_examples=spec["examples"],
+                       result=res, to_json=to_json, classify=lambda c: (classify(c)[0], list(classify(c)[1]) + ["crowded-copies"]))
     else:
         raise HarnessError(spec["kind"])
     res.exhaustive = False
